@@ -292,7 +292,7 @@ fn check_ast(ast: &Ast, st: &mut Stats) {
                 fnn.push(n);
             }
         }
-        for shape in ["math::u{}", "str::u{}", "ns::deep::u{}", "u{}.x", "_u{}", "u{}::", "Up{}X", "MATH::U{}", "ü{}ß"] {
+        for shape in ["math::u{}", "str::u{}", "ns::deep::u{}", "u{}.x", "_u{}", "u{}::", "Up{}X", "MATH::U{}", "ü{}ß", "_{}", "{}_", "_{}_0", "e{}", "{}e", "x{}#", "$_{}"] {
             let shaped = |i: usize| shape.replace("{}", &i.to_string());
             for functions in [true, false] {
                 let pool = if functions { &fnn } else { &vn };
@@ -604,7 +604,7 @@ pub fn run(cfg: &Cfg) -> Report {
     Report {
         property: ID,
         level: "exploration",
-        rule: format!("every AST with <= {k} operator nodes over the full operator alphabet (identifiers in every leaf, assignment-target and function position, named in source order) plus {nseq} sequence-shaped ASTs (`,`/`;` skeletons with <= {seq_n} separators over 13 element shapes incl. absent elements, `()`, nested sequences, and every skeleton of up to three more separators over plain variables, assignments and calls); per AST: 5 immutable + 5 mutable iterators against the occurrence list of the AST, every consumption style (for_each/fold, last, count, nth after 0..3 calls of next()) against next(), unknown-identifier errors against the lists (also after renaming all functions, or all variables, to names with namespaces, dots, underscores, upper-case and non-ASCII letters, with builtins enabled and disabled), and every swap of two variable names / two function names / a name with a fresh name / a name with a name in use in the other namespace applied through the mutable iterators and to the context. Plus scaling families (sums, products, tuples, call arguments, call chains, assignment chains, prefix chains, statement sequences with n identifiers for every n in 1..20 and up to 129 / 1..40 and up to 400). Non-trivial = at least two identifier occurrences; distinct by normalised tree"),
+        rule: format!("every AST with <= {k} operator nodes over the full operator alphabet (identifiers in every leaf, assignment-target and function position, named in source order) plus {nseq} sequence-shaped ASTs (`,`/`;` skeletons with <= {seq_n} separators over 13 element shapes incl. absent elements, `()`, nested sequences, and every skeleton of up to three more separators over plain variables, assignments and calls); per AST: 5 immutable + 5 mutable iterators against the occurrence list of the AST, every consumption style (for_each/fold, last, count, nth after 0..3 calls of next()) against next(), unknown-identifier errors against the lists (also after renaming all functions, or all variables, to names with namespaces, dots, underscores, upper-case and non-ASCII letters, digits and underscores only (`_0`, `0_`), a trailing `e`, `#`, `$`, with builtins enabled and disabled), and every swap of two variable names / two function names / a name with a fresh name / a name with a name in use in the other namespace applied through the mutable iterators and to the context. Plus scaling families (sums, products, tuples, call arguments, call chains, assignment chains, prefix chains, statement sequences with n identifiers for every n in 1..20 and up to 129 / 1..40 and up to 400). Non-trivial = at least two identifier occurrences; distinct by normalised tree"),
         nontrivial_set: "nontrivial",
         exhaustive: true,
         bound_completed: format!("AST size {k}; sequences with {seq_n} separators"),
